@@ -1742,7 +1742,6 @@ type schedOut struct {
 	Recs     []schedRec
 	Obs      schedObs
 	Model    *Model // after the initial history
-	Redeliv  bool   // some read-out started before the consumer's position (allowed: at least once)
 	Outcome  string
 	Deadlock string
 }
@@ -1909,9 +1908,10 @@ func schedHarness(base string, sc SchedScenario, out *schedOut) *vrt.Harness {
 // Q = entries of the initial history ++ the threads' acknowledged appends in an order consistent with their
 // call/return order (two appends that overlap in time may take either order). The consumer thread (there is at most
 // one) must have been handed Q[head], Q[head+1], ... and, if its Advance returned nil, has moved the head behind
-// them. Every complete read-out made afterwards must be Q[k:] for some k <= the head so moved (k smaller = redelivery,
-// allowed: at least once); a purge may additionally drop any prefix of the entries of the initial history (whose
-// segment files were aged), never an entry appended during the run. Nothing else may be delivered.
+// them. Every complete read-out made afterwards must be Q[head:] for the head so moved (no process died: as in the
+// sequential family a clean history is judged exactly; a read-out starting earlier is the class redelivery-without-crash);
+// a purge may additionally drop any prefix of the entries of the initial history (whose segment files were aged), never
+// an entry appended during the run. Nothing else may be delivered.
 func judgeSched(sc SchedScenario, out *schedOut) {
 	m := out.Model
 	fail := func(stage string, f *Fail) {
@@ -1997,7 +1997,6 @@ func judgeSched(sc SchedScenario, out *schedOut) {
 	type verdict struct {
 		stage string
 		f     *Fail
-		redel bool
 	}
 	check := func(order []schedRec) verdict {
 		Q := append([][]byte(nil), m.Appended...)
@@ -2008,9 +2007,9 @@ func judgeSched(sc SchedScenario, out *schedOut) {
 			for i, d := range cons.Delivered {
 				switch k := m.Head + i; {
 				case k >= len(Q):
-					return verdict{"history", &Fail{"fabricated-entry", "delivered-beyond-queue", fmt.Sprintf("%s: was handed %s but the queue held only %s", cons.Op, shortList(cons.Delivered), shortList(Q[m.Head:])), -1}, false}
+					return verdict{"history", &Fail{"fabricated-entry", "delivered-beyond-queue", fmt.Sprintf("%s: was handed %s but the queue held only %s", cons.Op, shortList(cons.Delivered), shortList(Q[m.Head:])), -1}}
 				case !bytes.Equal(Q[k], d):
-					return verdict{"history", &Fail{"wrong-order", "delivered", fmt.Sprintf("%s: was handed %s, the queue held %s", cons.Op, shortList(cons.Delivered), shortList(Q[m.Head:])), -1}, false}
+					return verdict{"history", &Fail{"wrong-order", "delivered", fmt.Sprintf("%s: was handed %s, the queue held %s", cons.Op, shortList(cons.Delivered), shortList(Q[m.Head:])), -1}}
 				}
 			}
 		}
@@ -2020,27 +2019,28 @@ func judgeSched(sc SchedScenario, out *schedOut) {
 			maxk = max(maxk, len(m.Appended))
 		}
 		e := Expect{Appended: Q, Head: maxk, Exact: false}
-		redel := false
 		o := &out.Obs
 		// the head of the live queue
 		switch {
 		case o.LiveCurErr != nil:
 			if maxk < len(Q) {
-				return verdict{"live", &Fail{"entry-not-delivered", "Current/err=" + errClass(o.LiveCurErr), fmt.Sprintf("after the threads finished Current failed with %q; acknowledged and not advanced past: %s", o.LiveCurErr, shortList(Q[head:])), -1}, false}
+				return verdict{"live", &Fail{"entry-not-delivered", "Current/err=" + errClass(o.LiveCurErr), fmt.Sprintf("after the threads finished Current failed with %q; acknowledged and not advanced past: %s", o.LiveCurErr, shortList(Q[head:])), -1}}
 			}
 		default:
 			found := false
-			for k := 0; k <= maxk && k < len(Q); k++ {
+			for k := head; k <= maxk && k < len(Q); k++ {
 				found = found || bytes.Equal(Q[k], o.LiveCur)
 			}
 			if !found {
 				clause, feat := "fabricated-entry", "Current"
-				for k := maxk + 1; k < len(Q); k++ {
-					if bytes.Equal(Q[k], o.LiveCur) {
+				for k := range Q {
+					if bytes.Equal(Q[k], o.LiveCur) && k > maxk {
 						clause, feat = "entry-not-delivered", "Current/skips-undelivered"
+					} else if bytes.Equal(Q[k], o.LiveCur) {
+						clause, feat = "redelivery-without-crash", "Current"
 					}
 				}
-				return verdict{"live", &Fail{clause, feat, fmt.Sprintf("after the threads finished Current returned %s; acknowledged and not advanced past: %s", short(o.LiveCur), shortList(Q[head:])), -1}, false}
+				return verdict{"live", &Fail{clause, feat, fmt.Sprintf("after the threads finished Current returned %s; acknowledged and not advanced past: %s", short(o.LiveCur), shortList(Q[head:])), -1}}
 			}
 		}
 		for _, ro := range []struct {
@@ -2055,19 +2055,20 @@ func judgeSched(sc SchedScenario, out *schedOut) {
 			if f != nil {
 				ff := *f
 				ff.Why = fmt.Sprintf("complete read-out (%s, %s) after the threads finished: %s (queue in append order %s, consumer advanced past %d)", ro.stage, ro.how, f.Why, shortList(Q), adv)
-				return verdict{ro.stage, &ff, false}
+				return verdict{ro.stage, &ff}
 			}
 			if len(ro.got) > len(Q)-head {
-				redel = true
+				// no crash happened: like the sequential family (clean histories are judged exactly) a read-out that starts
+				// before the position an acknowledged Advance moved the head to is reported, as a class of its own
+				return verdict{ro.stage, &Fail{"redelivery-without-crash", "read-out/" + ro.how, fmt.Sprintf("complete read-out (%s, %s) after the threads finished is %s: it redelivers entries the consumer had advanced past with a nil error (queue in append order %s, consumer advanced past %d)", ro.stage, ro.how, shortList(ro.got), shortList(Q), adv), -1}}
 			}
 		}
-		return verdict{"", nil, redel}
+		return verdict{"", nil}
 	}
 	var first verdict
 	for i, ord := range orders {
 		v := check(ord)
 		if v.f == nil {
-			out.Redeliv = v.redel
 			break
 		}
 		if i == 0 {
@@ -2083,9 +2084,6 @@ func judgeSched(sc SchedScenario, out *schedOut) {
 		nd = len(cons.Delivered)
 	}
 	out.Outcome = fmt.Sprintf("sched:ok:%s/consumer-got=%d/left=%d", sc.kinds(), min(nd, 4), min(len(out.Obs.Live), 4))
-	if out.Redeliv {
-		out.Outcome += "/redelivery"
-	}
 }
 
 func (r schedRec) String() string {
@@ -2133,6 +2131,9 @@ func schedScenarios(thorough bool) []SchedScenario {
 	appenders := [][]string{{OpAppend9}, {OpAppend1}, {OpAppend9, OpAppend9}, {OpAppendSeg}, {OpAppend1, OpAppend9}}
 	consumers := []SchedThread{{Kind: "scan"}, {Kind: "scan", N: 1}, {Kind: "advance"}, {Kind: "purge"}}
 	others := append(append([]SchedThread{}, consumers...), SchedThread{Kind: "append", Appends: []string{OpAppend9}}, SchedThread{Kind: "append", Appends: []string{OpAppend1, OpAppendSeg}})
+	if !thorough {
+		appenders, others = appenders[:4], others[:5]
+	}
 	var out []SchedScenario
 	for _, ap := range appenders {
 		for _, in := range inits {
@@ -2306,7 +2307,7 @@ func TestCheck(t *testing.T) {
 	}
 	vlib.Main(t, &vlib.Check{
 		ID: "C26", Level: "model_checking", QuickBudgetS: 55, ThoroughBudgetS: 780, WorkerEnv: []string{"GOMAXPROCS=1"},
-		Rule: "every op sequence of length <= d (quick d=4; thorough d=5, plus every sequence of length exactly 6 over the 9-op alphabet without the two delivery-neutral ops purgeNone and growMax) over the 11-op alphabet {append 1 B, append 9 B, append segment-filling 40 B, Queue.Advance, scanner Next x1 + Advance, scanner Next-to-end + Advance, reopen (Close + fresh Queue + Open), PurgeOlderThan(nothing old), PurgeOlderThan(all segments aged), SetMaxSize(80 = smallest legal), SetMaxSize(1024)} with max segment size 40 (rollover after <= 3 small entries), each replayed from scratch on the real Queue in a fresh directory, times 4 complete read-outs {live|after reopen} x {Current+Advance | scanner}; oracle = FIFO list model: Current after every op is the model head (or an error when empty), scanner output is a non-empty prefix of the remaining list, the final read-out equals the remaining list exactly, a rejected Append never shows up, an accepted Append never leaves more not-advanced payload than the max size, an Append is not rejected while the segment files plus the entry (+16 bytes framing) fit the max size. State = (sequence, read-out) node of the exploration tree, transition = one executed op, trace = one sequence validated against the implementation. Non-trivial = sequences containing at least one accepted append (distinct by construction). CRASH FAMILY (additional clause, engine crashfs; counted under the crash_* coverage keys and the crash:* outcomes, not under states/transitions/traces): histories over {append 1 B, append 9 B, append 40 B, Queue.Advance, scanner Next x1 + Advance, scanner Next-to-end + Advance, reopen} performed by a writer subprocess on the real Queue (max segment size 40) under strace with BEGIN/ACK markers around the initial Open and every op; quick: 4 hand-picked histories of 5-8 ops (append into fresh/rolled segment, length word equal to a record boundary, segment roll, Advance footer writes, trim of a full single segment = addSegment + remove, scanner trim with a tail segment, reopen), every cut; thorough: 7 hand-picked histories (every cut) plus EVERY sequence of length 0..3 over the 6-op alphabet without scanner-x1 (259 recordings; of each only the cuts inside or after its last op, so every (history prefix, cut) is evaluated once). Per history every prefix of the syscall-level event list (P), every torn length 1..n-1 of the write in flight (T; all writes are <= 56 bytes, no subsampling), and for the segment files (sync class [0-9]*) the images with un-fsynced data dropped or its last write torn (U); directory operations in program order; images deduplicated by (content, acknowledged ops, op in flight). One evaluation = one (image, acknowledgement context, read-out mode in {Current+Advance, scanner}) recovered in a fresh subprocess: real Queue.Open on the image, one more Append (must be accepted), directory copied without closing (second process death), complete read-out, then Open of the copy, complete read-out, one more Append, read-out. Crash oracle: each complete read-out = Appended[k:] for some k <= model head (k <= head + n while an Advance/scanner-Advance over n entries is in flight), optionally followed by the entry of the Append in flight as a whole, followed by the entry appended after the recovery; nothing else; Open must succeed. Non-trivial crash case = first read-out holds at least one entry of the history.",
+		Rule: "every op sequence of length <= d (quick d=4; thorough d=5, plus every sequence of length exactly 6 over the 9-op alphabet without the two delivery-neutral ops purgeNone and growMax) over the 11-op alphabet {append 1 B, append 9 B, append segment-filling 40 B, Queue.Advance, scanner Next x1 + Advance, scanner Next-to-end + Advance, reopen (Close + fresh Queue + Open), PurgeOlderThan(nothing old), PurgeOlderThan(all segments aged), SetMaxSize(80 = smallest legal), SetMaxSize(1024)} with max segment size 40 (rollover after <= 3 small entries), each replayed from scratch on the real Queue in a fresh directory, times 4 complete read-outs {live|after reopen} x {Current+Advance | scanner}; oracle = FIFO list model: Current after every op is the model head (or an error when empty), scanner output is a non-empty prefix of the remaining list, the final read-out equals the remaining list exactly, a rejected Append never shows up, an accepted Append never leaves more not-advanced payload than the max size, an Append is not rejected while the segment files plus the entry (+16 bytes framing) fit the max size. State = (sequence, read-out) node of the exploration tree, transition = one executed op, trace = one sequence validated against the implementation. Non-trivial = sequences containing at least one accepted append (distinct by construction). CRASH FAMILY (additional clause, engine crashfs; counted under the crash_* coverage keys and the crash:* outcomes, not under states/transitions/traces): histories over {append 1 B, append 9 B, append 40 B, Queue.Advance, scanner Next x1 + Advance, scanner Next-to-end + Advance, reopen} performed by a writer subprocess on the real Queue (max segment size 40) under strace with BEGIN/ACK markers around the initial Open and every op; quick: 4 hand-picked histories of 5-8 ops (append into fresh/rolled segment, length word equal to a record boundary, segment roll, Advance footer writes, trim of a full single segment = addSegment + remove, scanner trim with a tail segment, reopen), every cut; thorough: 7 hand-picked histories (every cut) plus EVERY sequence of length 0..3 over the 6-op alphabet without scanner-x1 (259 recordings; of each only the cuts inside or after its last op, so every (history prefix, cut) is evaluated once). Per history every prefix of the syscall-level event list (P), every torn length 1..n-1 of the write in flight (T; all writes are <= 56 bytes, no subsampling), and for the segment files (sync class [0-9]*) the images with un-fsynced data dropped or its last write torn (U); directory operations in program order; images deduplicated by (content, acknowledged ops, op in flight). One evaluation = one (image, acknowledgement context, read-out mode in {Current+Advance, scanner}) recovered in a fresh subprocess: real Queue.Open on the image, one more Append (must be accepted), directory copied without closing (second process death), complete read-out, then Open of the copy, complete read-out, one more Append, read-out. Crash oracle: each complete read-out = Appended[k:] for some k <= model head (k <= head + n while an Advance/scanner-Advance over n entries is in flight), optionally followed by the entry of the Append in flight as a whole, followed by the entry appended after the recovery; nothing else; Open must succeed. Non-trivial crash case = first read-out holds at least one entry of the history. SCHEDULE PART (engine vsched; both tiers, after the crash family, limited to 25 s quick / 300 s thorough of wall time; its decision nodes / scheduling steps / executions are ADDED to states / transitions / traces and reported separately as sched_states / sched_transitions / sched_traces): pkg/durablequeue/queue.go (the only file of the package that imports sync; Queue.mu and segment.mu live there, scanner.go locks them through these types) is compiled against the modelled sync. Scenarios = 9 initial queue states built unscheduled on the real Queue (max segment size 40) {[9 B] one segment with room for one more entry, [9 B, 1 B] 34 bytes: any entry fills it, [9 B, advance] not full and fully consumed, [9 B, 9 B] one full segment, [9 B x3] full head + tail, [9 B, 9 B, advance] full single segment with the head inside, fresh, [40 B] one over-full segment, [9 B x3, scanner-to-end] head trimmed} x appender thread programs {9 B | 1 B | 9 B, 9 B | 40 B (thorough: + 1 B, 9 B)} x one other thread {scanner: NewScanner, Next until false, Advance | scanner: NewScanner, Next x1, Advance | Current + Queue.Advance | PurgeOlderThan(2001) with the initial segment files aged to 2000 | second appender 9 B (thorough: + second appender 1 B, 40 B)}; thorough additionally two appenders (9 B; 9 B | 1 B) against each of the 4 consumer/purge threads (<= 2 preemptions). All threads work on the SAME Queue; EVERY schedule with <= 2 preemptions (thorough <= 3) at the decision points = every Lock/RLock of Queue.mu and segment.mu plus the threads' call boundaries is executed (baton passing inside a synctest bubble; the atomics of SharedCount pass silently). When the threads have finished: Current, two copies of the directory (restart images), complete live read-out by scanner, Close, then fresh Queue.Open on the copies and complete read-outs by Current+Advance and by scanner. Oracle on the call/return history: let Q = entries of the initial history ++ the acknowledged appends in some order consistent with returned-before-called; no Append may fail; the consumer thread was handed Q[head], Q[head+1], ... in order and its Advance returned nil; Current and every complete read-out equal Q[head':] with head' = head + number of entries the consumer advanced past (a purge may instead drop any prefix of the initial entries, never an entry appended during the run); nothing else is delivered; a read-out that starts before head' is the class redelivery-without-crash; deadlock and step cap are violations. Non-trivial schedule = execution with >= 1 preemption.",
 		Assumptions: []string{
 			"entries are non-empty (the scanner skips zero-length records by design)",
 			"Queue.Advance / scanner on a queue that is empty by the model is executed, but only its effect on later deliveries is judged (the statement does not define it)",
@@ -2316,6 +2317,7 @@ func TestCheck(t *testing.T) {
 			"crash family: ordered-metadata crash model (creates/unlinks persist in program order; data of segment files may be lost back to the last fsync = U images; a write in flight may persist any byte prefix = T images, byte-granular); event order is syscall completion order of the single writer goroutine",
 			"crash family: a lost acknowledged Advance (redelivery from an earlier position) is allowed by the statement (at-least-once), so a missing fsync in advanceTo is by design not a violation; footer positions stay below 256 (one significant byte) in all histories",
 			"crash family: a Queue.Open that fails on a crash image is reported also when no acknowledged, not-advanced entry exists (signature feature undelivered-entries=none): the queue then cannot accept the further append the oracle requires",
+			"schedule part: sequentially consistent interleavings at the granularity of the Lock/RLock operations of Queue.mu and segment.mu (file I/O between two lock operations runs atomically); at most one consuming thread (scanner or Current+Advance) and never a purge concurrent with a scanner, as in replications/internal/queue_management.go where one goroutine scans and purges while other goroutines append; no process death in this part, so read-outs are judged exactly (no redelivery), like clean histories of the sequential family",
 			"which appends the size limit must reject is judged only by payload bytes (accepted => not-advanced payload <= max size), and which it must accept only by the bytes the segment files really occupy (files + entry + 16 <= max size => accepted); the exact accounting of headers/footers in between is not part of the statement",
 		},
 		Run: func(c *vlib.Ctx) {
